@@ -39,8 +39,9 @@ def run(tier):
     v = vf.Verdict('C02', tier)
     vf.build()
     quick = tier != 'thorough'
-    rnd = random.Random(vf.seed())
-    ss = list(scripts(rnd, 40 if quick else 200, TYPES_Q if quick else TYPES_T, 6 if quick else 9))
+    ss = []
+    for rnd in vf.rounds(tier, 5):
+        ss += list(scripts(rnd, 40 if quick else 200, TYPES_Q if quick else TYPES_T, 6 if quick else 9))
     vf.trace_flow(v, 'RegTableTrace.tla', 'RegTableTrace.cfg', 'regtab', ss, 'bw')
     nb = sum(len(s) - 1 for s in ss)
     v.cov['distinct_nontrivial'] += len(set(l for s in ss for l in s if l.startswith('bwrite')))
